@@ -2,7 +2,7 @@
     Subject: Model/Stream.v (hand model of FileReader; its seek arithmetic is Gen/Plan.v, regenerated from
     io/fileio.py), tied to the implementation by the correspondence run of tools/harness/props/c02.py. *)
 From Coq Require Import ZArith List Bool.
-Require Import SPP.Base.Rt SPP.Gen.Plan SPP.Model.Stream SPP.Proofs.C02_stream SPP.Proofs.C02_items.
+Require Import SPP.Base.Rt SPP.Gen.Plan SPP.Model.Stream SPP.Model.StreamApi SPP.Proofs.C02_stream SPP.Proofs.C02_items SPP.Proofs.C02_api.
 Import ListNotations.
 Open Scope Z_scope.
 
@@ -72,3 +72,79 @@ Example C02_example :
   [(OBytes [1], 1); (OBytes [2; 3; 4], 4); (OUnit, 1); (OBytes [2; 3; 4; 5], 5); (OErr ValueError, 5); (OErr ValueError, 5)]
   /\ 1 <= nfiles fs /\ Forall op_ok [Cread 1; Creadinto 3; SeekCur (-3); Cread 4; Cread 1; SeekSet 5].
 Proof. vm_compute. repeat split; try discriminate; repeat constructor; discriminate. Qed.
+
+(** * the API layer (Model/StreamApi.v; the three source-dependent quantities are regenerated from fileio.py into Gen/Plan.v) *)
+
+(** FileReader.__init__ leaves the reader at the first sample of the stream: header end of file 0, stream position 0 *)
+Theorem C02_open_reader : forall fs, 1 <= nfiles fs ->
+  exists s0, open_reader fs = Some s0 /\ Inv fs s0 /\ absp fs s0 = 0 /\ stream_pos fs s0 = 0.
+Proof. exact open_reader_first_sample. Qed.
+Print Assumptions C02_open_reader.
+
+(** every history that begins WITHOUT a seek on a freshly opened reader, at every depth (whole bytes, or 1/2/4-bit samples that
+    a counted read unpacks), with buffer reads into buffers of any item size, returns exactly what the flat array of packed bytes
+    returns (counted reads: the unpacked samples of the bytes) and reports its position after every operation *)
+Theorem C02_fresh_history : forall d fs ops, 1 <= nfiles fs -> 0 < bitfact d -> Forall aop_ok ops ->
+  api_fresh_run d fs ops = api_spec_run d (flat fs) 0 ops.
+Proof. exact api_fresh_refines. Qed.
+Print Assumptions C02_fresh_history.
+
+(** ... and a history after seek(0, 0) is the same history *)
+Theorem C02_fresh_is_seek0 : forall d fs ops, 1 <= nfiles fs -> 0 < total fs -> 0 < bitfact d -> Forall aop_ok ops ->
+  exists s0 s1, open_reader fs = Some s0 /\ seek_set_op fs s0 0 = (s1, OUnit) /\ api_run d fs s1 ops = api_run d fs s0 ops.
+Proof. exact fresh_is_seek0. Qed.
+Print Assumptions C02_fresh_is_seek0.
+
+(** a buffer of k items of b bytes is read exactly as a buffer of b*k bytes: the byte count is what is compared *)
+Theorem C02_typed_buffer : forall d fs s b k, api_step d fs s (ACreadinto b k) = api_step d fs s (ACreadinto 1 (b * k)).
+Proof. exact creadinto_typed_bytes. Qed.
+Print Assumptions C02_typed_buffer.
+
+(** sub-byte depths: a counted read of n bytes' worth of units returns the unpacked samples of exactly the next n bytes *)
+Theorem C02_cread_unpacks : forall d fl p n, 0 < bitfact d ->
+  api_spec_step d fl p (ACread (n * bitfact d)) =
+    if p + n <=? len fl then (p + n, OBytes (unpack_out d (slice fl p n))) else (len fl, OErr ValueError).
+Proof. exact cread_whole_units. Qed.
+Print Assumptions C02_cread_unpacks.
+
+(** read_block on a freshly opened reader (files with their real header bytes) *)
+Theorem C02_read_block_fresh : forall fs nchans nsamples start nsamps,
+  1 <= nfiles fs -> 1 <= nchans -> 1 <= nsamps -> total fs = nsamples * nchans ->
+  api_read_block fs nchans nsamples start nsamps =
+    if (0 <=? start) && (start + nsamps <=? nsamples)
+    then OBytes (slice (flat fs) (start * nchans) (nchans * nsamps)) else OErr ValueError.
+Proof. exact api_read_block_spec. Qed.
+Print Assumptions C02_read_block_fresh.
+
+(** non-vacuity: 2-bit samples (most significant field first), an empty first data section, a first operation that is a read,
+    a uint16 buffer of 2 items crossing a boundary, a float32 buffer at the end of the stream *)
+Example C02_example_api :
+  let fs := [mkfile [224; 224] []; mkfile [225] [27; 228]; mkfile [226] [1; 2; 3]] in
+  let ops := [ACread 4; ACreadinto 2 2; ASeekCur (-3); ACread 8; ACreadinto 4 1; ACread 4] in
+  api_fresh_run (DBits 2 true) fs ops =
+    [(OBytes [0; 1; 2; 3], 1); (OBytes [228; 1; 2; 3], 5); (OUnit, 2); (OBytes [0; 0; 0; 1; 0; 0; 0; 2], 4); (OBytes [3], 5); (OErr ValueError, 5)]
+  /\ 1 <= nfiles fs /\ 0 < bitfact (DBits 2 true) /\ 0 < total fs /\ Forall aop_ok ops.
+Proof. cbv zeta. split; [vm_compute; reflexivity|]. split; [vm_compute; discriminate|]. split; [vm_compute; reflexivity|].
+  split; [vm_compute; reflexivity|]. repeat (apply Forall_cons || apply Forall_nil); cbn [aop_ok]; try exact I; repeat split; discriminate. Qed.
+Example C02_example_read_block_fresh :
+  let fs := [mkfile [224; 224; 224] [1; 2; 3; 4]; mkfile [225] [5; 6]] in
+  api_read_block fs 2 3 1 2 = OBytes [3; 4; 5; 6] /\ 1 <= nfiles fs /\ total fs = 3 * 2.
+Proof. cbv zeta. split; [vm_compute; reflexivity|]. split; [vm_compute; discriminate|]. vm_compute; reflexivity. Qed.
+
+(** 16- and 32-bit samples, every history: on a stream whose data sections hold whole items, every history of item-aligned
+    absolute and relative seeks, counted reads of items and buffer reads of whole items (on a fresh reader, no seek first)
+    returns what the flat byte array returns and reports its position after every operation *)
+Theorem C02_items_history : forall isz fs ops, 1 <= nfiles fs -> 0 < isz -> whole_items isz fs -> Forall (op_aligned isz) ops ->
+  run fs isz (init fs) ops = spec_run (flat fs) isz 0 ops.
+Proof. exact items_stream_refines. Qed.
+Print Assumptions C02_items_history.
+
+Example C02_example_items_history :
+  let fs := [mkfile [224] [1; 0; 2; 0]; mkfile [225; 225] [3; 0]; mkfile [226] [4; 0; 5; 0]] in
+  let ops := [Cread 1; Creadinto 6; SeekCur (-4); Cread 3; SeekSet 2; Creadinto 20; SeekCur 0] in
+  run fs 2 (init fs) ops =
+    [(OBytes [1; 0], 2); (OBytes [2; 0; 3; 0; 4; 0], 8); (OUnit, 4); (OBytes [3; 0; 4; 0; 5; 0], 10); (OUnit, 2);
+     (OBytes [2; 0; 3; 0; 4; 0; 5; 0], 10); (OErr ValueError, 10)]
+  /\ 1 <= nfiles fs /\ whole_items 2 fs /\ Forall (op_aligned 2) ops.
+Proof. cbv zeta. split; [vm_compute; reflexivity|]. split; [vm_compute; discriminate|].
+  split; [repeat constructor|]. repeat (apply Forall_cons || apply Forall_nil); cbn [op_aligned]; repeat split; try reflexivity; discriminate. Qed.
